@@ -551,6 +551,13 @@ def r30_for_map(src, item, ed, opts):
         k = sp.get("k", "vx_j")
         es = sp.get("es", "vx_es")
         pat = src.text(*n["pat"])
+        mk = re.fullmatch(r"(.+)\.keys\(\)", ex, re.S)
+        if mk:
+            # `for K in M.keys()`: the keys, each exactly once, unspecified order
+            ed.replace(n["range"][0], n["body"][0], f"let {es} = {sp.get('entries', 'vx_map_keys')}(&{mk.group(1).strip()}); let mut {k}: usize = 0; {sp.get('ghost_after_let', '')} while {k} < {es}.len() ", "R30")
+            ed.insert(n["body"][0] + 1, f" let {pat} = {es}[{k}]; {k} += 1; ", "R30", prio=-5)
+            ed.count("R30")
+            continue
         if not ex.startswith("&"):
             # by value: the map is consumed; its entries come out each exactly once in an unspecified
             # order, so taking them from the back of the entry vector is as good as any other order
@@ -937,6 +944,17 @@ def r36_for_chars(src, item, ed, opts):
         ed.count("R36")
 
 
+def r37_ref_pattern(src, item, ed, opts):
+    """arm pattern `Some(&(A, B))` over an `Option<&(X, Y)>` of Copy types -> `Some((A, B))`; the sidecar's
+    shim for the scrutinee returns the tuple by value (Verus has no ref patterns; for Copy payloads the two
+    bind the same values)"""
+    for a in nodes_of(item, "arm"):
+        t = src.text(*a["pat"])
+        for m in re.finditer(r"&\s*\(", t):
+            ed.replace(a["pat"][0] + m.start(), a["pat"][0] + m.start() + 1, "", "R37")
+            ed.count("R37")
+
+
 RULES = {
     "R6": r6_mem_replace,
     "R18": r18_rendering_error,
@@ -959,9 +977,11 @@ RULES = {
     "R32": r32_for_into_iter_rev,
     "R35": r35_unwrap_or_else,
     "R36": r36_for_chars,
+    "R37": r37_ref_pattern,
     "R32": r32_for_into_iter_rev,
     "R35": r35_unwrap_or_else,
     "R36": r36_for_chars,
+    "R37": r37_ref_pattern,
     "R24": r24_call_shim,
 }
 
